@@ -18,6 +18,9 @@ package discovery
 //
 // Poll racing a registration: a gorm callback on the server database fires after the FIRST query of sqlStore.get and runs
 // the registration there, i.e. deterministically between the two reads (whichever order they are in).
+//
+// Two overlapping activities of ONE client node (periodic loop / the poll ActivateServiceForSubject triggers / background
+// validation): op "overlap", zz_verif_C16_overlap_test.go (suspension points: link.beforeGet, link.afterGet, c16Verifier.onVerify).
 
 import (
 	"context"
@@ -76,14 +79,14 @@ const (
 // case
 
 type c16Op struct {
-	K string `json:"k"`           // reg | retract | bad | badretract | credreg | validate | loop | outage | racereg | burst | selfpoll | advance | poll | racepoll | reset | restart | srestart | get | settle | inject
+	K string `json:"k"`           // reg | retract | bad | badretract | credreg | validate | loop | outage | racereg | burst | selfpoll | overlap | advance | poll | racepoll | reset | restart | srestart | get | settle | inject
 	S int    `json:"s,omitempty"` // subject index
 	C int    `json:"c,omitempty"` // client index
 	D int    `json:"d,omitempty"` // reg/retract/bad: exp delta (units) · advance: clock delta · get: timestamp selector · reset: repopulation count
-	M string `json:"m,omitempty"` // retract: own|other|unknown|creds|nojti · bad/badretract/inject: defect · racepoll: reg|retract
-	F int    `json:"f,omitempty"` // poll/validate/loop: bit i set = on this client, during this op, verification of presentations signed by subject i FAILS
-	N int    `json:"n,omitempty"` // burst: number of concurrent registrations · racereg: selector of the second subject
-	V bool   `json:"v,omitempty"` // poll: also run the background validate() · reg: submit through client 0 (forwarding)
+	M string `json:"m,omitempty"` // retract: own|other|unknown|creds|nojti · bad/badretract/inject: defect · racepoll: reg|retract · overlap: <at>:<what>:<outer> (see zz_verif_C16_overlap_test.go)
+	F int    `json:"f,omitempty"` // poll/validate/loop: bit i set = on this client, during this op, verification of presentations signed by subject i FAILS · overlap: the same, during the overtaking activity only
+	N int    `json:"n,omitempty"` // burst: number of concurrent registrations · racereg: selector of the second subject · overlap: subject of the change on the server, relative to S
+	V bool   `json:"v,omitempty"` // poll: also run the background validate() · reg: submit through client 0 (forwarding) · overlap: the overtaking poll is followed by validate()
 }
 
 type c16Case struct {
@@ -175,6 +178,7 @@ func c16Gen(t *rapid.T) c16Case {
 		"credreg", "credreg", "credreg",
 		"validate", "validate", "loop", "outage", "outage",
 		"racereg", "racereg", "burst", "selfpoll", "selfpoll",
+		"overlap", "overlap", "overlap", "overlap",
 	}
 	for i := 0; i < n; i++ {
 		k := rapid.SampledFrom(kinds).Draw(t, "k")
@@ -237,6 +241,8 @@ func c16Gen(t *rapid.T) c16Case {
 			op.S = rapid.IntRange(0, c.Subjects-1).Draw(t, "s")
 			op.D = rapid.IntRange(1, 60).Draw(t, "d")
 			op.M = rapid.SampledFrom([]string{"reg", "reg", "reg", "retract"}).Draw(t, "m")
+		case "overlap":
+			c16GenOverlap(t, c, &op)
 		case "reset":
 			op.D = rapid.IntRange(0, c16MaxSubjects).Draw(t, "repop")
 		case "restart", "settle":
@@ -382,6 +388,9 @@ type c16Verifier struct {
 	failFor map[string]bool // signer DID → verification fails now (injected fault: this node cannot verify them at the moment)
 	passed  int             // since the knob was last set
 	failed  int
+	// onVerify: interleaving point owned by the harness. Called (without the lock) at the start of every verification on this
+	// node until it returns true (= consumed): "another activity of the node runs while this verification is in progress".
+	onVerify func(vp vc.VerifiablePresentation) bool
 }
 
 func (v *c16Verifier) setFailures(mask int) {
@@ -397,6 +406,15 @@ func (v *c16Verifier) setFailures(mask int) {
 }
 
 func (v *c16Verifier) VerifyVP(vp vc.VerifiablePresentation, verifyVCs bool, allowUntrustedVCs bool, validAt *time.Time) ([]vc.VerifiableCredential, error) {
+	v.mu.Lock()
+	hook := v.onVerify
+	v.onVerify = nil // never re-entered by the verifications of the activity it runs
+	v.mu.Unlock()
+	if hook != nil && !hook(vp) {
+		v.mu.Lock()
+		v.onVerify = hook
+		v.mu.Unlock()
+	}
 	v.mu.Lock()
 	inject := len(v.failFor) > 0 && v.failFor[c16Signer(vp)]
 	v.mu.Unlock()
@@ -2081,6 +2099,8 @@ func c16Run(x *h.Ctx, c c16Case) {
 			w.opSelfPoll(op.S, op.D, op.M)
 		case "racepoll":
 			w.opRacePoll(op.C, op.S, op.D, op.M)
+		case "overlap":
+			w.opOverlap(op)
 		case "reset":
 			w.opReset(op.D)
 		case "restart":
